@@ -296,7 +296,9 @@ def pv(v):
 def correspond(seed, tier):
     n = 80 if tier == "quick" else 1000
     lines, expect = [], {}
-    dist = {"errors": 0, "ok": 0}
+    gen_twin = set(proto.gen_entries())
+    twins = []
+    dist = {"errors": 0, "ok": 0, "generated_code_twins": 0}
     for i in range(n):
         c = gen(rng_for(seed, "corr19", i), i, tier)
         if c["form"] == "flags" or c["invalid"] == "recip":
@@ -315,6 +317,9 @@ def correspond(seed, tier):
                 None if "Outputs" not in kw else float(STEMS.index(kw["Outputs"]["StemName"]))]
         rid = f"cf{i}"
         lines.append(proto.request(rid, "Cfg.settings", {}, args))
+        if "GenStog.construct" in gen_twin:
+            lines.append(proto.request("g" + rid, "GenStog.construct", {}, args))   # StoG(**kwargs) as regenerated from stog.py, at Float
+            twins.append(rid)
         with workdir(c) as (d, names):
             k2 = copy.deepcopy(kw)
             k2["Files"] = files_of(c, names)
@@ -337,6 +342,34 @@ def correspond(seed, tier):
             dist["ok"] += 1
     res = proto.run_model(lines)
     dis = []
+    # the generated constructor: same error kind, same attributes, same r grid as the real StoG(**kwargs)
+    for rid in twins:
+        exp = expect.get(rid)
+        s_, out = res.get("g" + rid, ("err", "no-response"))
+        if exp is None or (s_ != "ok" and "unrepresentable" in str(out)):
+            continue      # a value the typed keyword record of the generated model cannot hold (string density, boolean cutoff)
+        dist["generated_code_twins"] += 1
+        if s_ != "ok":
+            dis.append(dict(id="g" + rid, kind="status", model=str(out)[:200]))
+            continue
+        if exp[0] == "err":
+            if not (len(out) == 1 and out[0][0] == exp[1]):
+                dis.append(dict(id="g" + rid, kind="error-kind (generated constructor)", impl=exp[1], model=[float(t) for t in out[0][:1]]))
+            continue
+        st = exp[1]
+        if len(out) < 10:
+            dis.append(dict(id="g" + rid, kind="generated constructor raises, StoG(**kwargs) does not", model=[float(t) for t in out[0]]))
+            continue
+        f = out[1]
+        got = dict(rsf=RSF[int(f[0])], rmin=f[1], rmax=f[2], rdelta=f[3], lowq=bool(f[4]), lorch=bool(f[5]), bcoh=f[6], btot=f[7],
+                   dens=float(out[2][1]), cut=None if out[3][0] == 0 else float(out[3][1]),
+                   qmin=None if out[4][0] == 0 else float(out[4][1]), qmax=None if out[5][0] == 0 else float(out[5][1]))
+        want = dict(rsf=st.real_space_function, rmin=st.rmin, rmax=st.rmax, rdelta=st.rdelta, lowq=st.low_q_correction, lorch=st.lorch_flag,
+                    bcoh=st.bcoh_sqrd, btot=st.btot_sqrd, dens=st.density, cut=st.fourier_filter_cutoff, qmin=st.qmin, qmax=st.qmax)
+        if got != want:
+            dis.append(dict(id="g" + rid, kind="settings (generated constructor)", impl=str(want), model=str(got)))
+        elif not np.array_equal(np.asarray(st.dr, dtype=float), out[9]):
+            dis.append(dict(id="g" + rid, kind="r-grid (generated constructor)", impl=len(st.dr), model=len(out[9])))
     for rid, exp in expect.items():
         s_, out = res.get(rid, ("err", "no-response"))
         if s_ != "ok":
